@@ -32,11 +32,13 @@ def _run(prog: Program, rep: Report, tier: str) -> None:
     rep.rule('C01-D1', 'multiplier exactly once: on every path of sum_product_edges that returns a tensor, the returned value passes through exactly one application of multiply_in_disconnected_internals, called with the full node set, the set of nodes attached to some edge, and the (renamed) externals; every caller passes <rule>.rhs.nodes() as the node set; no value that already carries the multiplier is multiplied again (the j_precompute path is reported under C11)')
     rep.rule('C01-D2', 'multiplier guard: the domain size of node n is multiplied in iff n is neither attached to an edge nor external (truth table); the size comes from the node label\'s domain; the product is applied with the semiring\'s mul and from_int')
     rep.rule('C01-D3', 'edgeless externals: they are removed from the einsum output iff not connected, and restored by view/expand with size 1 exactly where removed')
+    rep.rule('C01-D5', 'inputs complete: in sum_products the scan that collects the already-computed values a component needs visits every right-hand-side edge of every rule of the component (never left early), and records the value of an edge label exactly when the label is not in the component')
     rep.rule('C01-D4', 'zero survives: for every semiring, mul(x, from_int(n)) keeps zero entries zero on both operand representations (abstract interpretation through PatternedTensor.add/mul and nan_to_num_, physical and default paths); a missing factor / nonterminal value means zero (None) and is propagated')
     rep.not_decided += ['equality with the sum over all derivations and assignments for every grammar', 'correctness of einsum itself (C07)', 'SCC ordering (C19)']
     multiplier_once(rep, prog)
     multiplier_guard(rep, prog)
     externals(rep, prog)
+    inputs_complete(rep, prog)
     zero_survives(rep, prog)
     none_is_zero(rep, prog)
 
@@ -369,3 +371,50 @@ def none_is_zero(rep: Report, prog: Program) -> None:
             if '.zeros(' in b and '.shape(' in b and "['semiring']" in b.replace('"', "'"):
                 ok = True
     rep.ob(rule, ap.fq(), 'missing value (None) becomes semiring.zeros(fgg.shape(nt))', ap.loc(), ok, '' if ok else 'a nonterminal without value is not mapped to the semiring zero of its shape')
+
+
+def inputs_complete(rep: Report, prog: Program) -> None:
+    from ..guards import iff_table
+    rule = 'C01-D5 inputs-complete'
+    f = prog.func(SP, 'sum_products')
+    cfg = cfg_of(f)
+    # the table handed to the per-component solver: X in `... apply_to_patterned_tensors(fgg, opts, X.keys(), labels, *X.values())`
+    tabs = set()
+    for c in [x for x in own_nodes(f.node) if isinstance(x, ast.Call) and callee_last(x) in ('apply_to_patterned_tensors', 'apply')]:
+        for a in c.args:
+            if isinstance(a, ast.Call) and callee_last(a) == 'keys' and isinstance(a.func.value, ast.Name):
+                tabs.add(a.func.value.id)
+    n = 0
+    for T in sorted(tabs):
+        stores = [k for k, nd in cfg.nodes.items() if nd.kind == 'stmt' and isinstance(nd.stmt, ast.Assign) and any(isinstance(t, ast.Subscript) and norm(t.value) == T for t in nd.stmt.targets)]
+        for k in stores:
+            loops = cfg.nodes[k].loops
+            if len(loops) < 2:
+                continue
+            n += 1
+            inner = loops[-1]
+            lp = cfg.nodes[inner].stmt
+            comp_loop = loops[0]
+            # never left early: no break / return in the scanning loops below the per-component loop
+            scan = [cfg.nodes[h].stmt for h in loops[1:]]
+            early = [x for l in scan for x in ast.walk(l) if isinstance(x, (ast.Break, ast.Return))]
+            rep.ob(rule, f.fq(), f"the scan filling `{T}` ({' / '.join('for ' + norm(l.target) + ' in ' + norm(l.iter)[:30] for l in scan)}) is never left early", f.loc(lp), not early,
+                   'every rule and every edge of the component is visited' if not early else
+                   f"`{type(early[0]).__name__.lower()}` at line {early[0].lineno} ends the scan before all edges were seen: a label that occurs only later is missing from `{T}`, its rule silently evaluates to zero")
+            # recorded iff the label is outside the component
+            e = norm(lp.target)
+            comp = norm(cfg.nodes[comp_loop].stmt.target)
+            be = [b for b, lab in cfg.succ[inner] if lab == 'iter'][0]
+            atoms = {}
+            for m in cfg.loop_body[inner]:
+                if cfg.nodes[m].kind == 'test':
+                    atoms.update(collect_atoms(cfg.nodes[m].expr))
+
+            def role(t, a, e=e, comp=comp):
+                if isinstance(a, ast.Compare) and isinstance(a.ops[0], (ast.In, ast.NotIn)) and norm(a.left) == f"{e}.label" and norm(a.comparators[0]) == comp:
+                    return 'inside'
+                return None
+            bad, unknown = iff_table(cfg, be, inner, atoms, role, lambda val: (not val['inside']) if 'inside' in val else None, lambda reach: k in reach)
+            rep.ob(rule, f.fq(), f"{norm(cfg.nodes[k].stmt)[:60]} iff {e}.label is not in {comp}", f.loc(cfg.nodes[k].stmt), not bad,
+                   '; '.join(bad[:2]) if bad else 'every edge whose label was computed in an earlier component contributes its value')
+    rep.floor('C01-D5', n, 1)
